@@ -182,6 +182,10 @@ def c_den(o):
 
 def result_obligations(check, name, pi, p, result, expect_type, expect_val, rp, expect_bool=False, pre=None):
     pc = list(p.ctx.pc) + list(pre or [])
+    # frame: the type objects of the operands (which may be shared with a declaration, a parameter or a routine's return type) are
+    # not modified - a callback that needs another type builds a new ValueType
+    wr = sorted({f"{getattr(o, 'label', None) or o.cls.name}.{f}" for (o, f, old, new) in p.ctx.pre_writes() if o.cls.name == "ValueType"})
+    check.ob(f"{name}#frame: operand types are not modified", pi, p.ctx.pc, not wr, detail=f"writes {wr}")
     ok = isinstance(result, Obj) and result.fields.get("value_type") is not None
     check.ob(f"{name}#result-is-typed-node", pi, pc, ok, replay=rp)
     if not ok:
